@@ -54,6 +54,7 @@ CHANGE = {
     "C11-7": ("OwnedArray::resize re-seats the base pointer only when the vector reallocated: after resize(0) (pointer nulled, capacity kept) a resize within capacity leaves data() == nullptr with size() == n", "resize(n); resize(0); resize(m <= n)"),
     "C14-7": ("TBB alignedMalloc fast path: scalable_malloc(size) when size is a multiple of the alignment", "TBB configuration, alignment >= 128, size > 1024 and a multiple of the alignment"),
     "C01-7": ("enkiTS SplitAndAddTask pipe-full fallback drops the chunk it could not queue", "internal back end, caller's 256-slot pipe full: >= ~46 threads and nested parallel_for"),
+    "C03-6": ("AsyncLoop loop thread: the re-check after publishing insideLoopBody tests threadShouldBeAlive instead of shouldBeRunning", "stop() runs completely between the loop thread's running-flag check and its insideLoopBody store (point A)"),
     "C20-2": ("writePFM<vec3fa> walks the pixels with a stride of 3 floats instead of 4", "vec3fa images wider than one pixel"),
 }
 
